@@ -17,6 +17,8 @@ Line-protocol driver of C11 (model + spec monitor).  Ops:
              => path muxkind pattern kind status location contentLengthSeen glSeen stat issued now
      the same in gl-inet mode (GLMode on) with an Admin-Token cookie `glRaw`.
   C11.gltok  value => stat issued now 0|1     the real glCheckToken(value)
+  C11.start  store usersConfigured => started authNil kind
+     the real initUsers on a data directory whose sessions.db is in state `store`.
   C11.chain  chain firstRun usersExist method path cookie basic ctype bodyLen => kind
      the real wrapper functions composed as `chain` around a stub handler.
   C11.public path => 0|1          the real isPublicResource
@@ -31,11 +33,52 @@ def parseCookie : String → Option Cookie
   | "none" => some .none | "unknown" => some .unknown
   | "expired" => some .expired | "valid" => some .valid | _ => none
 
-def parseBasic : String → Option Basic
-  | "none" => some .none | "right" => some .right
-  -- every way of presenting credentials that are not the right ones
-  | "wrong" | "wronguser" | "emptypw" | "malformed" | "bearer" => some .wrong
+/-- The fixture's administrator and what verifies against the stored hash. -/
+def fxUser : Bytes := Bytes.ofString "admin"
+def fxPass : Bytes := Bytes.ofString "correct horse"
+def fxUsers (usersExist : Bool) : List (Bytes × Bytes) := if usersExist then [(fxUser, [72])] else []
+def fxVerifies (hash pass : Bytes) : Bool := hash == [72] && pass == fxPass
+
+def basicUserOf : Char → Option Bytes
+  | 'r' => some fxUser
+  | 'c' => some (Bytes.ofString "Admin")
+  | 'k' => some (Bytes.ofString "nobody")
+  | 'e' => some []
+  | 's' => some (Bytes.ofString "admin ")
+  | 'l' => some (List.replicate 300 97)
   | _ => none
+
+def basicPassOf : Char → Option Bytes
+  | 'r' => some fxPass
+  | 'w' => some (Bytes.ofString "wrong password")
+  | 'e' => some []
+  | 'l' => some (List.replicate 300 97)
+  | _ => none
+
+/-- The class of the Authorization header of a line.  The (user, password) forms
+`u<U>p<P>` and the malformed headers are judged by the model's `basicClass`
+(an existing user of exactly that name whose password verifies); the older
+tokens keep their fixed class. -/
+def parseBasic (tok : String) (usersExist : Bool := true) : Option Basic :=
+  let t := if tok.endsWith "blocked" then (tok.dropEnd 7).toString else tok
+  let cls (c : Option (Bytes × Bytes)) := some (basicClass (fxUsers usersExist) fxVerifies c)
+  match t with
+  | "none" => some .none
+  | "right" => some .right
+  | "wrong" | "wronguser" | "emptypw" | "malformed" | "bearer" => some .wrong
+  -- malformed headers: r.BasicAuth() gives nothing
+  | "m-nopayload" | "m-b64" | "m-nocolon" => cls none
+  -- the scheme is matched case-insensitively; several colons: the password is the rest
+  | "m-lower" => cls (some (fxUser, fxPass))
+  | "m-colons" => cls (some (fxUser, fxPass ++ Bytes.ofString ":extra"))
+  | "m-twice" => cls (some (fxUser, Bytes.ofString "wrong password"))
+  | _ =>
+    match t.toList with
+    | ['u', u, 'p', p] => do
+      let un ← basicUserOf u
+      let pw ← basicPassOf p
+      cls (some (un, pw))
+    | _ => none
 
 def respName : Resp → String
   | .ran => "ran"
@@ -86,11 +129,12 @@ def parseHdrs (s : String) : List (Bytes × Bytes) :=
 def parseReq (firstRun usersExist method path cookie basic ctype bodyLen : String)
     (hdrs : String := "-") : Option Req := do
   pure {
+    addrBlocked := basic.endsWith "blocked"
     headers := parseHdrs hdrs
     path := ← hexDecode path
     method := ← hexDecode method
     cookie := ← parseCookie cookie
-    basic := ← parseBasic basic
+    basic := ← parseBasic basic (← parseBool usersExist)
     ctype := ← hexDecode ctype
     contentLength := ← parseLen bodyLen
     firstRun := ← parseBool firstRun
@@ -202,6 +246,38 @@ def stepGLTok (ins impl : List String) : Option String := do
     pure (verdict (m == i) spec (if m then "token-ok" else "token-rejected"))
   | _, _ => none
 
+def parseStore : String → Option StoreState
+  | "missing" => some .missing | "fine" => some .fine | "empty" => some .empty
+  | "garbage" | "garbage-short" => some .garbage
+  | "truncated" => some .truncated | "directory" => some .directory
+  | _ => none
+
+/-- The start-up path: the real initUsers on a sessions.db in the given state;
+`started` = it returned no error (run() goes on), `authNil` = the module it
+returned is nil, `kind` = the answer to GET /control/status without credentials. -/
+def stepStart (ins impl : List String) : Option String := do
+  match ins, impl with
+  | [store, users], [started, authNil, kind] =>
+    let st ← parseStore store
+    let users ← parseBool users
+    let started ← parseBool started
+    let probe : Option Obs ← if kind == "-" then some none else (parseObs kind).map some
+    let implNil ← if authNil == "-" then some none else (parseBool authNil).map some
+    let req : Req := { path := [47, 99, 111, 110, 116, 114, 111, 108, 47, 115, 116, 97, 116, 117, 115],
+                       method := sGET, cookie := .none, basic := .none, ctype := [], contentLength := 0,
+                       firstRun := false, usersExist := users }
+    let model : Option (Bool × Obs) := (startup st).map fun n =>
+      (n, Obs.resp (run [.postInstall, .optionalAuth, .gzip, .ensure sGET] (fun _ => .ran)
+        { req with authNil := n }))
+    let showM := match model with
+      | none => "stopped"
+      | some (n, o) => "started\t" ++ (if n then "auth-nil" else "auth-ok") ++ "\t" ++ obsName o
+    let agree := match model with
+      | none => !started
+      | some (n, o) => started && implNil == some n && probe == some o
+    pure (verdict agree (startCheck users started probe) showM)
+  | _, _ => none
+
 def parseWrapper (s : String) : Option Wrapper :=
   match s.splitOn ":" with
   | ["post"] => some .postInstall
@@ -271,6 +347,7 @@ def step (_ : Unit) (line : String) : Unit × String :=
   | "C11.wire" :: rest => go stepReq rest
   | "C11.gl" :: rest => go stepGL rest
   | "C11.gltok" :: rest => go stepGLTok rest
+  | "C11.start" :: rest => go stepStart rest
   | "C11.chain" :: rest => go stepChain rest
   | "C11.public" :: rest => go stepPublic rest
   | "C11.table" :: rest => go stepTable rest
